@@ -60,10 +60,14 @@ pub assume_specification[<Fp as PrimeField>::from_repr](r: FpRepr) -> (o: CtOpti
         ct_opt(o).is_some() <==> le_int(r.0@) < P(),
         ct_opt(o).is_some() ==> fv(ct_opt(o).unwrap()) == le_int(r.0@);
 
+/// n-byte little-endian encoding of an integer
+pub open spec fn le_bytes(v: int, n: nat) -> Seq<u8>
+    decreases n
+{
+    if n == 0 { Seq::<u8>::empty() } else { seq![(v % 256) as u8] + le_bytes(v / 256, (n - 1) as nat) }
+}
 /// 24-byte little-endian encoding of the value
-pub uninterp spec fn repr(f: Fp) -> Seq<u8>;
-pub broadcast axiom fn ax_repr(f: Fp)
-    ensures (#[trigger] repr(f)).len() == 24, le_int(repr(f)) == fv(f);
+pub open spec fn repr(f: Fp) -> Seq<u8> { le_bytes(fv(f), 24) }
 pub assume_specification[<Fp as PrimeField>::to_repr](f: &Fp) -> (r: FpRepr)
     ensures r.0@ == repr(*f);
 
@@ -84,6 +88,6 @@ pub broadcast axiom fn ax_fp_random_mutref<R: RngCore>(rng: &mut R, r: Fp)
     ensures (#[trigger] fp_random_post::<&mut R>(rng, r) && det_rng::<R>())
         ==> (r, *final(rng)) == fp_draw::<R>(*old(rng));
 
-pub broadcast group group_field { ax_fv_range, ax_repr, ax_fp_random_mutref }
+pub broadcast group group_field { ax_fv_range, ax_fp_random_mutref }
 
 } // mod th_field
